@@ -21,8 +21,8 @@ import (
 	"net/url"
 	"os"
 	"os/exec"
+	"runtime"
 	"runtime/debug"
-	"runtime/pprof"
 	"sort"
 	"strings"
 	"sync"
@@ -670,11 +670,7 @@ func c18EvalGuarded(cs c18Case) c18Outcome {
 
 // c18Child is the child-process loop: one case per input line, one outcome per output line.
 func c18Child() {
-	if pf := os.Getenv("C18_PROF"); pf != "" {
-		f, _ := os.Create(pf)
-		pprof.StartCPUProfile(f)
-		defer pprof.StopCPUProfile()
-	}
+	runtime.GOMAXPROCS(1) // see checkC18
 	debug.SetMaxStack(1 << 20)
 	in := bufio.NewScanner(os.Stdin)
 	in.Buffer(make([]byte, 1<<20), 1<<26)
@@ -691,7 +687,6 @@ func c18Child() {
 		w.WriteByte('\n')
 		w.Flush()
 	}
-	pprof.StopCPUProfile()
 	os.Exit(0)
 }
 
@@ -1021,6 +1016,13 @@ func checkC18(c *ctx) {
 		c18Child()
 		return
 	}
+	// Every generated input allocates a compress/flate writer (a ~650 kB object whose type has a GC program).
+	// go1.23's sweeper reads mspan.largeType of such an object after it has released the span
+	// (runtime/mgcsweep.go, "mheap_.freeSpan(s)" followed by "s.largeType"), so with several Ps allocating at this
+	// rate the harness itself dies with SIGSEGV in runtime.(*mheap).freeManual (seen 3 out of 3 times in 60 000-case
+	// runs).  With a single P nothing can reuse the span inside that window.
+	runtime.GOMAXPROCS(1)
+	debug.SetMemoryLimit(3 << 30)
 	r := c.res
 	r.Rule = "cases = witnesses of the recorded defects; the grid (2 inputs x every list of 0..2 records over {placed on ref 0 with mate on ref 1, placed on ref 1 with mate on ref 0, unplaced} x {unsorted, queryname, coordinate, custom less} x headers [z a]/[z a] and [z a]/[a c], and again with the second input failing after its last record for unsorted and queryname); then random: k = 0..4 (thorough ..7) BAM inputs written with bam.Writer (0..6 records each, thorough ..40; names over a 7-word pool with prefixes/case, positions 0..3 so ties are frequent, unplaced records, mates on other references), " +
 		"sort order unknown(nil or custom less pos/namedesc/matepos)/unsorted/queryname/coordinate (occasionally mismatching), reference lists equal/disjoint/overlapping/shuffled (name order != header order, non-monotone links)/none, occasionally with UR:, inputs sorted in the declared order (11/12 of cases), " +
@@ -1044,7 +1046,7 @@ func checkC18(c *ctx) {
 	if c.thorough() {
 		n = 60000
 	}
-	if v := os.Getenv("C18_N"); v != "" {
+	if v := os.Getenv("C18_N"); v != "" { // number of random cases (used for the mutation runs)
 		fmt.Sscan(v, &n)
 	}
 	var cases []c18Case
@@ -1074,7 +1076,7 @@ func checkC18(c *ctx) {
 	var riskyCases []c18Case
 	work := make(chan int, 64)
 	var wg sync.WaitGroup
-	for w := 0; w < 8; w++ {
+	for w := 0; w < 4; w++ {
 		wg.Add(1)
 		go func() {
 			defer wg.Done()
